@@ -69,7 +69,7 @@ def gen_mo_cases(tier, seed):
                     cases.append({"kind": "mo", "nodes": nodes, "ppn": ppn, "L": L, "append": append,
                                   "nsub": rnd.choice([1, 2, 5, 9]), "nwrites": rnd.choice([0, 1, 6, 25]) if rnd.random() < 0.3 else rnd.choice([8, 20, 40]),
                                   "maxlen": rnd.choice([3, 30, 200]), "flags": flags, "seed": rnd.randrange(1, 10 ** 9),
-                                  "routing": rnd.choice(["NONE", "NR", "NLNR"]),
+                                  "routing": rnd.choice(["NONE", "NR", "NLNR"]), "buffer_kb": rnd.choice([None, None, 1, 0]),
                                   "sim_seed": rnd.randrange(1, 10 ** 6)})
     # directed: big lines against the default 1 MiB buffer (crosses the real threshold)
     cases.append({"kind": "mo", "nodes": 1, "ppn": 2, "L": -1, "append": 0, "nsub": 2, "nwrites": 6, "maxlen": 400000, "flags": 1,
@@ -89,7 +89,8 @@ def run_case(binary, case):
         args = ["day", case["seed"], case["L"], case["nwrites"], ",".join(map(str, case["ts"]))]
     # a local time zone far from UTC: localtime instead of gmtime would show
     return C.run_sim(binary, args, nodes=case["nodes"], ppn=case["ppn"], sim_seed=case.get("sim_seed", 1), want_log=False, timeout=120,
-                     env={"TZ": "XYZ+11:30", "YGM_COMM_ROUTING": case.get("routing", "NONE")})
+                     env=dict({"TZ": "XYZ+11:30", "YGM_COMM_ROUTING": case.get("routing", "NONE")},
+                              **({"YGM_COMM_BUFFER_SIZE_KB": case["buffer_kb"]} if case.get("buffer_kb") is not None else {})))
 
 
 def parse_mo(sr, ranks):
@@ -389,7 +390,7 @@ def replay(data):
     if binary is None:
         print(err[-500:])
         return False
-    keep = {k: case[k] for k in ("kind", "nodes", "ppn", "L", "append", "nsub", "nwrites", "maxlen", "flags", "seed", "sim_seed", "ts", "routing") if k in case}
+    keep = {k: case[k] for k in ("kind", "nodes", "ppn", "L", "append", "nsub", "nwrites", "maxlen", "flags", "seed", "sim_seed", "ts", "routing", "buffer_kb") if k in case}
     sr = run_case(binary, keep)
     res = C.Result()
     (check_mo if keep["kind"] == "mo" else check_day)(res, keep, sr, True)
